@@ -1061,6 +1061,14 @@ def c_case(c, ctx):
         noise[:4] = 0  # keep the outer box exactly affine so the hull stays inside the image
         tgt = tgt + noise
         if op == "warp_tps":
+            # a thin-plate spline interpolates its landmarks only while its system matrix is well above the
+            # documented singular-value floor (min_singular_val = 1e-4): near-coincident control points (a thorough
+            # run drew three within 0.3 px) make it truncate, and landmark positions are then approximate by design
+            from scipy.spatial.distance import pdist
+
+            if min(float(pdist(ctrl).min()), float(pdist(tgt).min())) < 1.0:
+                ctx.event("warp_tps: control points closer than 1 px: not judged")
+                return
             kern = getattr(rbf, c["rbf"])(ctrl) if c["rbf"] else None
             t = mt.ThinPlateSplines(PointCloud(ctrl), PointCloud(tgt), kernel=kern)
         else:
